@@ -231,6 +231,37 @@ def make_inputs(rng, tier):
                 rmax2 = 2 if rform == "int" else [1] + [1 + (k % 2) for k in range(d)] + [1]
                 out.append(("tensor-rmax/d%d/f64/%s/rmax-%s-binding/list" % (d + 1, src, rform), B, "list", [3] * (d + 1), None, 1e-10, rmax2))
                 out.append(("tensor-rmax/d%d/f64/%s/rmax-%s-binding/deduce" % (d + 1, src, rform), B, "deduce", [3] * (d + 1), None, 1e-10, rmax2))
+    # scale family (the statement is invariant under A -> c*A): arrays of genuine rank > 1 whose norm is far below machine epsilon or huge
+    for d in (2, 3, 4):
+        for dtname, ex in (("f64", 80), ("c128", 80), ("f32", 40)):
+            for sgn in (-1, 1):
+                dt = DTYPES[dtname]
+                g = tn.Generator().manual_seed(rng.randrange(1 << 30))
+                N = [rng.randint(2, 4) for _ in range(d)]
+                A = tn.randn(N, generator=g, dtype=tn.float64).to(dt) * (2.0 ** (sgn * ex))
+                eps = 1e-8 if dtname != "f32" else 1e-4
+                out.append(("%s/d%d/%s/torch/rmax-none/deduce" % ("tiny" if sgn < 0 else "huge", d, dtname), A, "deduce", N, None, eps, None))
+    # singleton modes x per-bond rmax list whose cap DROPS right after the singleton (the cap of every bond must be honoured, also where
+    # the unfolding is square and 'nothing is to be compressed'), tensors and operators, torch and numpy sources
+    for d in (3, 4):
+        for pos in range(1, d):
+            for src in ("torch", "numpy"):
+                g = tn.Generator().manual_seed(rng.randrange(1 << 30))
+                N = [4] * d
+                N[pos] = 1
+                A = tn.randn(N, generator=g, dtype=tn.float64)
+                rmax = [1] + [4] * (d - 1) + [1]
+                for k in range(pos + 1, d):
+                    rmax[k] = 2
+                out.append(("singleton-rmax/d%d/pos%d/f64/%s/rmax-list-drop" % (d, pos, src), A, "deduce", N, None, 1e-12, rmax))
+            Mm = [3] * d; Nn = [2] * d
+            Mm[pos] = 1; Nn[pos] = 1
+            g = tn.Generator().manual_seed(rng.randrange(1 << 30))
+            B = tn.randn(Mm + Nn, generator=g, dtype=tn.float64)
+            rmaxB = [1] + [6] * (d - 1) + [1]
+            for k in range(pos + 1, d):
+                rmaxB[k] = 3
+            out.append(("singleton-rmax-operator/d%d/pos%d/f64/torch/rmax-list-drop" % (d, pos), B, "tuples", Nn, Mm, 1e-12, rmaxB))
     # engineered exact ties
     for n, eps in ((4, 0.5), (9, 1.0 / 3.0 * 0 + 0.5), (16, 0.5), (16, 0.25)):
         out.append(("tie/eye%d" % n, tn.eye(n, dtype=tn.float64), "deduce", [n, n], None, eps, None))
@@ -352,7 +383,7 @@ def run(res, rng, tier, known):
     replay_decisions(res, rec.calls, res.prop, "to_tt")
     # exact tie of the sweep's data flow (reshapes, factor placement) with exact integer oracles in place of SVD / rank_chop
     from checks.sweeps import sweep_cases
-    run_cases(res, sweep_cases(rng, tier, "to_tt") + sweep_cases(rng, tier, "mat_to_tt"), known)
+    run_cases(res, sweep_cases(rng, tier, "to_tt") + sweep_cases(rng, tier, "mat_to_tt") + sweep_cases(rng, tier, "to_tt_rmax") + sweep_cases(rng, tier, "mat_to_tt_rmax"), known)
     res.extra["svd_contract_calls_bad"] = len(rec.svd_bad)
     if rec.svd_bad:
         res.notes.append("SVD contract breaches (oracle assumption, not a property violation by itself): %s" % rec.svd_bad[:3])
